@@ -105,6 +105,10 @@ def gen_mem(seed):
         extra_exprs = [m["data"] for m in el.mems.values()] + [m["when"] for m in el.mems.values() if m["when"] is not None]
         ok = program_safe(el.flat) and s14_free(el.flat) and all(
             program_safe(el.flat + [("sig", "_", x)]) and s14_free(el.flat + [("sig", "_", x)]) for x in extra_exprs)
+        # known finding S29: an enable that folds to a compile-time constant is never wired to the gates
+        from gen_scalar import constant_value
+        if any(m["when"] is not None and constant_value(el.flat, m["when"]) is not None for m in el.mems.values()):
+            continue
         if ok and max(fa.unfolded_size(el.flat)) < 200:
             return st, el
     return st, el
